@@ -131,6 +131,22 @@ def run(ctx, log):
                 cases.append(("FFusedLeft", sym, name, ("i", a), ("i", b)))
             if rng.random() < 0.15:
                 cases.append(("FLocal", sym, name, ("i", a), ("i", b)))
+    # the values that are special to THESE programs: an integer literal equal to the packed word of the function constant
+    # of the same program (entry << 16 | locals, read from the real bytecode) is still that integer
+    import re as _re
+    probe = [program(f, "+", ("i", 5), ("i", 6)) for f in ("FLocal", "FFusedRight", "FFusedLeft")]
+    packed = set()
+    for o in vlib.nlh("compile", [vlib.hexs(s) for s in probe], tag="c06p"):
+        for ip, nl in _re.findall(r" f(\d+)\.(\d+)", o):
+            packed.add(int(ip) * 65536 + int(nl))
+    ctx.count("packed-function-words", len(packed))
+    for v in sorted(packed):
+        for w in (v, v + 1, v - 1):
+            for other in (w, 1, 0, 7):
+                for sym, name in arith_cmp:
+                    for (a, b) in ((w, other), (other, w)):
+                        for form in ("FGeneric", "FFusedRight", "FFusedLeft", "FLocal"):
+                            cases.append((form, sym, name, ("i", a), ("i", b)))
     # floats
     fl = list(FLOAT_SPECIALS) + [rand_float_bits(rng) for _ in range(12 if ctx.quick else 80)]
     fpairs = [(x, y) for x in fl for y in fl]
